@@ -8,7 +8,7 @@ import impl
 import readerlib as rl
 import readerprops as rp
 
-PROPFILES = ["props/C10.v"]
+PROPFILES = ["props/C10.v", "props/C10_src.v"]
 ASSUMPTIONS = rp.ASSUMPTIONS + [
     "the kernel's TCP delivery and thread scheduling are not modelled: the theorem quantifies over ALL sequences "
     "of recv() results (which is what the OS can produce); a socketpair()+sender-thread run validates that the "
